@@ -180,6 +180,8 @@ pub struct Profile {
     /// probability that an index whose metric was just changed gets NO update op in that round
     /// (the rebuild then runs without any pending mark)
     pub p_quiet_after_prepare: f64,
+    /// probability that a metric change is followed at once by `clear` on the same index
+    pub p_clear_after_prepare: f64,
     /// after a failed / cancelled build: probability of changing the metric in the same transaction
     /// (which wipes whatever the build left) and building again, instead of aborting
     pub p_prepare_after_failed: f64,
@@ -1583,6 +1585,12 @@ impl<'p> Gen<'p> {
                         bail_if_dead!(self.step(ex, Op::Prepare(w, m)));
                         bail_if_dead!(ex.exec(&Op::Dump));
                         bail_if_dead!(self.readback(ex, i));
+                        if p.p_clear_after_prepare > 0.0 && self.r.chance(p.p_clear_after_prepare) {
+                            let w = self.idx[i].w();
+                            bail_if_dead!(self.step(ex, Op::Clear(w)));
+                            bail_if_dead!(ex.exec(&Op::Dump));
+                            bail_if_dead!(self.readback(ex, i));
+                        }
                     }
                 }
             }
